@@ -218,6 +218,9 @@ def _grid_e2e(tier, rng):
     for lat in (-89.0, -45.0, 0.0, 30.0, 43.6, 89.0):
         for lon in (-170.0, 0.0, 1.44, 120.0, 200.0, 345.6, -190.0):
             for alt in (-400.0, 0.0, 150.0, 9000.0):
+                if lat == 30.0 and lon == 120.0:
+                    # (whole numbers of degrees and metres handed over as Python ints)
+                    yield {"lat": 30, "lon": 120, "alt": int(alt), "target": 5, "date": 0, "ints": 1}
                 for t in range(2 if tier == "quick" else 6):
                     k += 1
                     yield {"lat": lat, "lon": lon, "alt": alt, "target": (k * 7 + t) % 23, "date": k % 2}
@@ -234,13 +237,14 @@ def _(c):
     from beyond.dates import Date
     from beyond.utils.measures import Range, Azimut, Elevation, Doppler
     lat, lon, alt = c.real("lat"), c.real("lon"), c.real("alt")
-    key = (lat, lon, alt)
+    ints = bool(c.integer("ints"))
+    key = (lat, lon, alt, ints)
     if key not in _STA:
         name = f"E2E_{len(_STA)}_{abs(hash(key)) % 10 ** 6}"
         if int(abs(lat) * 10 + abs(lon) + abs(alt)) % 2:
             # the name has been used before, for another site (re-creating a station under a used name is supported: only a warning is logged)
             create_station(name, (-lat / 2 + 7.0, lon + 75.0, 10.0))
-        _STA[key] = create_station(name, (lat, lon, alt))
+        _STA[key] = create_station(name, (int(lat), int(lon), int(alt)) if ints else (lat, lon, alt))
     sta = _STA[key]
     date = [Date(2018, 5, 4, 1, 2, 3), Date(2009, 12, 31, 23, 59, 50)][c.integer("date")]
     # independent WGS-84 (a, 1/f typed here)
